@@ -563,10 +563,12 @@ def validate_evidence(doc):
         raise HarnessError('evidence: rule')
 
 
-def write_evidence(prop, doc):
+def write_evidence(prop, doc, dev=False):
+    """dev=True (a `--runs N` development run, which also skips the supplementary stages): the registered evidence file
+    is left alone and the document goes to <id>.dev.json (git-ignored)."""
     os.makedirs(EVIDENCE, exist_ok=True)
     validate_evidence(doc)
-    path = os.path.join(EVIDENCE, '%s.json' % prop)
+    path = os.path.join(EVIDENCE, '%s%s.json' % (prop, '.dev' if dev else ''))
     tmp = path + '.tmp'
     with open(tmp, 'w') as f:
         json.dump(doc, f, indent=1, sort_keys=True)
